@@ -53,6 +53,7 @@ bool Service::operator==(const Service &other) const
 {
     return d->type == other.d->type &&
         d->name == other.d->name &&
+        d->hostname == other.d->hostname &&
         d->port == other.d->port &&
         d->attributes == other.d->attributes;
 }
